@@ -51,6 +51,9 @@ CLAIMED["C12"] = dict(engine="secmem", technique="TLA+ model SecMem.tla (primiti
 CLAIMED["C13"] = dict(engine="metastore", technique="TLA+ model of the key table with a lagging replica (Metastore.tla) checked by TLC; TLC-generated call sequences replayed on all four metastores over semantic backend fakes; recorded runs validated by TLC",
     text="Metastore.tla specifies insert-only Store, exact Load, greatest-created LoadLatest and read-your-writes against a lagging replica (TLC must refute read-your-writes when reads may come from the replica); TLC-generated call sequences over overlapping ids, stamps whose string and numeric order differ, binary keys, revoked flag and parent meta are executed on the memory, SQL (3 placeholder dialects), DynamoDB v1 and v2 metastores (table name, region suffix) over a database/sql driver fake and semantic DynamoDB fakes that serve non-consistent reads from a stale snapshot; TLC validates every recorded run field by field.",
     note="backends are fakes of the documented contracts (primary-key uniqueness, conditional put, consistent read, descending query); sequences <= 4 calls quick / 6 thorough; sequential calls only", ref="5/C13, 4.6")
+CLAIMED["C07"] = dict(engine="tamper", technique="symbolic (ideal-AEAD) TLA+ model Tamper.tla enumerated by TLC; every case made concrete and executed on real Decrypt/Load; outcomes validated by TLC",
+    text="Tamper.tla assembles a record field by field from genuine records of two key generations and another partition, damaged and absent values, and corrupts the key rows of its chain; TLC enumerates every combination with the ideal-AEAD outcome and checks that the only success is the payload bound to that Data; each case is made concrete (bit flips, truncations, real records and rows) and run through Session.Decrypt and Session.Load in a fresh cache-less factory; TLC validates: never a panic, never other bytes, outcome as in the model; plus every single-bit flip and truncation length of Data and of the encrypted key.",
+    note="AES-GCM authenticity is assumed (ideal AEAD); corrupted rows live in the fake metastore; one service/product; bit flips / truncations beyond the exhaustive single-record sweep are seeded samples", ref="5/C07, 4.6")
 PENDING = {}
 
 def main():
